@@ -652,6 +652,36 @@ private:
     }
   }
 
+  // v was modified and is going to be marked as unchanged again: the
+  // constraints over v recorded before refer to its old value.
+  template<typename BoolToCstEnv>
+  void forget_stale_csts(BoolToCstEnv &env, const variable_t &v) {
+    using cst_set_t = typename BoolToCstEnv::mapped_type;
+    transform_if(env,
+		 [&v](const cst_set_t &s) {
+		   if (s.is_top() || s.is_bottom()) {
+		     return false;
+		   }
+		   for (auto const &cst: s) {
+		     for (auto const &w: cst.variables()) {
+		       if (w == v) {
+			 return true;
+		       }
+		     }
+		   }
+		   return false;
+		 },
+		 [](cst_set_t &s) { s = cst_set_t::top();});
+  }
+
+  void mark_as_unchanged(const variable_t &v) {
+    if (!m_unchanged_vars.at(v)) {
+      forget_stale_csts(m_bool_to_lincsts, v);
+      forget_stale_csts(m_bool_to_refcsts, v);
+    }
+    m_unchanged_vars += v;
+  }
+
   // The boolean variable x is about to be overwritten: any fact "if b
   // is true then x must be true" refers to the old value of x.
   void forget_implied_bool(const variable_t &x) {
@@ -876,12 +906,12 @@ private:
 	m_product.first().set_bool(x, boolean_value::top());
       }
       
-      m_bool_to_lincsts.set(x, lincst_set_t(cst));
       // We assume all variables in cst are unchanged unless the
       // opposite is proven
       for (auto const &v : cst.variables()) {
-	m_unchanged_vars += v;
+	mark_as_unchanged(v);
       }
+      m_bool_to_lincsts.set(x, lincst_set_t(cst));
     }
     m_bool_to_bools -= x;
   }
@@ -912,12 +942,12 @@ private:
 	  m_product.first().set_bool(x, boolean_value::top());
 	}
       }
-      m_bool_to_refcsts.set(x, refcst_set_t(cst));
       // We assume all variables in cst are unchanged unless the
       // opposite is proven
       for (auto const &v : cst.variables()) {
-	m_unchanged_vars += v;
+	mark_as_unchanged(v);
       }
+      m_bool_to_refcsts.set(x, refcst_set_t(cst));
     }
     m_bool_to_bools -= x;
 
@@ -1914,7 +1944,7 @@ public:
       // REVISIT: do nothing in m_bool_to_bools is not precise but sound.
     } else {
       if (m_unchanged_vars.at(x)) {
-	m_unchanged_vars += new_x;
+	mark_as_unchanged(new_x);
       }
     }
   }
